@@ -25,6 +25,9 @@ class MapFillerQubit:
     def ensures_index(self, qubit, result):
         return same(result._alias_index, phys(qubit._alias_from, ival(qubit._alias_index)))
 
+    def ensures_written_on_declared_register(self, qubit, result):
+        return type_is(result._alias_from, Register) and result._alias_from._alias_from is None
+
 
 @contract("core.algorithm.used_qubit_visitor:UsedQubitIndicesVisitor.visit_NamedQubit", props=["C06", "C13"])
 class UsedQubit:
